@@ -63,7 +63,7 @@ class Snapshot:
         if isinstance(v, SymMap):
             if id(v) in self.memo:
                 return self.memo[id(v)]
-            c = SymMap(v.dom, v.val, v.kkind, v.vkind, v.size)
+            c = SymMap(v.dom, v.val, v.kkind, v.vkind, v.size, v.key_inv)
             self.memo[id(v)] = c
             self.live[id(v)] = v
             return c
@@ -288,6 +288,8 @@ def fresh_like(ip, v, name, kind=None):
             return Sym(ctx.fresh(name, Kind(kind).sort()), kind)
     if isinstance(v, Sym):
         return Sym(ctx.fresh(name, v.t.sort()), v.ty, v.cls)
+    if isinstance(v, z3.ExprRef):
+        return ctx.fresh(name, v.sort())
     if isinstance(v, bool):
         return Sym(ctx.fresh(name, BoolSort), 'bool')
     if isinstance(v, int):
@@ -304,10 +306,19 @@ def fresh_like(ip, v, name, kind=None):
         arr = ctx.fresh(name, v.arr.sort())
         n = ctx.fresh(name + '_len', IntSort)
         ctx.assume(n >= 0)
-        return SymSeq(arr, n, v.elem)
+        r = SymSeq(arr, n, v.elem, None, v.tag)
+        from .lib import MEASURES
+        for mn in v.meas:
+            m = MEASURES[mn]
+            t = ctx.fresh(name + '_' + mn, m.sort)
+            if m.sort == IntSort and m.nonneg:
+                ctx.assume(t >= 0)
+                ctx.assume(z3.Implies(n == 0, t == 0))
+            r.meas[mn] = t
+        return r
     if isinstance(v, SymMap):
         m = SymMap(ctx.fresh(name + '_dom', v.dom.sort()), ctx.fresh(name + '_val', v.val.sort()), v.kkind, v.vkind,
-                   ctx.fresh(name + '_size', IntSort) if v.size is not None else None)
+                   ctx.fresh(name + '_size', IntSort) if v.size is not None else None, v.key_inv)
         if m.size is not None:
             ctx.assume(m.size >= 0)
         return m
@@ -326,7 +337,7 @@ def havoc_path(ip, roots, path, kinds=None):
             # mutable symbolic container: havoc in place (aliases see it)
             n = fresh_like(ip, cur, path.replace('.', '_'))
             if isinstance(cur, SymSeq):
-                cur.arr, cur.n = n.arr, n.n
+                cur.arr, cur.n, cur.meas = n.arr, n.n, n.meas
                 cur.facts = None
             else:
                 cur.dom, cur.val, cur.size = n.dom, n.val, n.size
